@@ -96,12 +96,31 @@ func guard(f func()) (p string) {
 // judged are written all over (every field, slice element and map entry, in place) before the
 // next case starts - their holder is free to do that, and nothing a later call returns may
 // depend on it.
-func liveScribble() {
+func liveScribble() (changed string) {
 	if !world.LiveOn() {
-		return
+		return ""
 	}
 	for _, v := range world.TakeRemembered() {
-		scribbleDeep(reflect.ValueOf(v), 0, map[uintptr]bool{})
+		h := v.(*heldResult)
+		// a result handed out two cases ago has lived through every call made since: it must
+		// still be what it was (nothing a later call does may reach into it)
+		if now := snapshotOf(h.v); now != h.was && changed == "" {
+			changed = fmt.Sprintf("a %T handed out earlier changed while later calls were made: was %.200s now %.200s", h.v, h.was, now)
+		}
+		scribbleDeep(reflect.ValueOf(h.v), 0, map[uintptr]bool{})
+	}
+	return changed
+}
+
+// heldResult is a result handed out in a live pass together with its rendering at that time.
+type heldResult struct {
+	v   interface{}
+	was string
+}
+
+func remember(v interface{}) {
+	if world.LiveOn() {
+		world.Remember(&heldResult{v: v, was: snapshotOf(v)})
 	}
 }
 
@@ -110,7 +129,7 @@ func validateResponse(sp *saml2.SAMLServiceProvider, enc string) (*types.Respons
 	var err error
 	defer func() {
 		if resp != nil {
-			world.Remember(resp)
+			remember(resp)
 		}
 	}()
 	p := guard(func() { resp, err = sp.ValidateEncodedResponse(enc) })
@@ -122,7 +141,7 @@ func retrieveInfo(sp *saml2.SAMLServiceProvider, enc string) (*saml2.AssertionIn
 	var err error
 	defer func() {
 		if info != nil {
-			world.Remember(info)
+			remember(info)
 		}
 	}()
 	p := guard(func() { info, err = sp.RetrieveAssertionInfo(enc) })
@@ -134,7 +153,7 @@ func validateLogoutRequest(sp *saml2.SAMLServiceProvider, enc string) (*saml2.Lo
 	var err error
 	defer func() {
 		if res != nil {
-			world.Remember(res)
+			remember(res)
 		}
 	}()
 	p := guard(func() { res, err = sp.ValidateEncodedLogoutRequestPOST(enc) })
@@ -146,7 +165,7 @@ func validateLogoutResponse(sp *saml2.SAMLServiceProvider, enc string) (*types.L
 	var err error
 	defer func() {
 		if res != nil {
-			world.Remember(res)
+			remember(res)
 		}
 	}()
 	p := guard(func() { res, err = sp.ValidateEncodedLogoutResponsePOST(enc) })
